@@ -73,6 +73,7 @@ def shards(tier, seed):
         out.append({"name": "playbacks-%d" % i, "kind": "play", "n": n // parts, "weight": 8})
     out.append({"name": "controls-and-observers", "kind": "control", "weight": 2})
     out.append({"name": "regression-inputs-of-fixed-findings", "kind": "witness", "weight": 1})
+    out.append({"name": "bars-of-unequal-length", "kind": "unequal", "n": 150 if tier == "quick" else 3000, "weight": 1})
     return out
 
 
@@ -276,9 +277,51 @@ def canonical_witnesses():
                            {"name": "b", "instrument": None, "bars": [bar(triplets, 2, 3)]}])]
 
 
+def run_unequal(ctx, shard):
+    """Bars of different total length played together (2/4 against 4/4 ...). How long the longer ones sound is not something the
+    statement settles; that every started note is stopped exactly once, and nothing else, is."""
+    rng = ctx.rng("unequal")
+    values = [v for v in rhythm_values() if v.r1 == 1]
+    for i in range(shard["n"]):
+        ntr = rng.randint(2, 4)
+        meters = [rng.choice([(2, 4), (4, 4), (3, 4), (6, 8), (5, 4)]) for _ in range(ntr)]
+        bars = []
+        for ti, m in enumerate(meters):
+            bars.append({"key": "C", "meter": list(m), "entries": [make_entry(rng, v, ti + 1, 0.15) for v in random_rhythm(rng, Fraction(*m), values)]})
+        seq = Rec()
+        w = {"meters": meters, "bars": bars}
+        st, r = ctx.call(seq.play_Bars, [build_bar(b) for b in bars], list(range(1, ntr + 1)), 120)
+        ctx.case(("unequal", repr(bars)))
+        if st != "ok":
+            ctx.check("events: playback returns normally", False, w, None, repr(r), mechanism="raise:unequal-bars")
+            continue
+        sounding = {}
+        ok, why = True, None
+        for e in seq.log:
+            if e[0] == "play":
+                k = (e[1], e[2])
+                if sounding.get(k):
+                    ok, why = False, {"started twice": k}
+                    break
+                sounding[k] = True
+            elif e[0] == "stop":
+                k = (e[1], e[2])
+                if not sounding.get(k):
+                    ok, why = False, {"stopped but not sounding": k}
+                    break
+                sounding[k] = False
+        if ok and any(sounding.values()):
+            ok, why = False, {"left sounding": sorted(k for k, v in sounding.items() if v)}
+        ctx.check("events: every play has exactly one later stop on its channel; nothing left sounding, nothing stopped unstarted", ok, w,
+                  None, why, mechanism="voices:unequal-bars")
+    ctx.sample({"unequal": "2-4 bars in different meters through play_Bars; balance of play / stop events only"})
+
+
 def run(shard, ctx):
     if shard["kind"] == "control":
         return run_control(ctx)
+    if shard["kind"] == "unequal":
+        return run_unequal(ctx, shard)
     rng = ctx.rng("play")
     values = rhythm_values()
     dyadic = [v for v in values if v.r1 == 1]
